@@ -3,7 +3,8 @@
    h * w <= B, from a kernel computation over all patterns of all such shapes
    (diag_equiv_from_check); the instance actually used (B = 16, enumeration
    restricted to independent patterns) is in NotAdjBoundedIndep.v.  The
-   unbounded statement is NotAdj.diag_equiv_statement and is not proved. *)
+   unbounded statement NotAdj.diag_equiv_statement is proved independently of
+   this computation in NotAdjPlanarA.v / NotAdjPlanarB.v / NotAdjPlanarMain.v. *)
 From Coq Require Import ZArith List Bool Arith Lia.
 From Cspuz Require Import Graph.GraphModel Graph.ReachProofs Graph.Avc Graph.AvcProofs
   Graph.NotAdj Graph.NotAdjForest Graph.NotAdjDiag.
